@@ -25,7 +25,7 @@ Share ==
        /\ ShareOK(e.t, e.w, e.r, e.before, e.sub, e.after, IF e.r = 0 THEN 0 ELSE endPos)
        \* what the integrator did agrees with what the helper functions say:
        \* the first point evaluated is the one at stream position usage * before
-       /\ (e.sub > 0) => e.first = e.usage * e.before
+       /\ (e.sub > 0) => (e.first >= e.usage * e.before /\ e.first < e.usage * (e.before + 1))
        /\ (e.sub = 0) => e.first = -1
        \* every rank ends the iteration at the same stream position
        /\ e.end = e.usage * e.t
